@@ -133,4 +133,31 @@ def build(reg):
         ok = ok and first is not None and ast.unparse(first.iter) == "stubs" and any(c is calls[0] for c in ast.walk(first)) and ast.unparse(calls[0].args[0]) == ast.unparse(first.target)
         return ok, "exactly one random.* call site: random.shuffle(<loop variable>) inside `for ... in stubs` preceding the grouping loop" if ok else f"random call sites: {[ast.unparse(c)[:40] for c in calls]}"
     reg.static_checks.append(("GCMAlgorithmFast.random_clustered_graph:static.only_randomness_is_one_shuffle_per_stub_list", only_shuffles))
+    def network_delegates(reg_):
+        d = reg_.find_def("gcmpy/gcm_algorithm/gcm_algorithm_network.py", "GCMAlgorithmNetwork.random_clustered_graph")
+        body = [ast.unparse(x).replace(" ", "") for x in d.body if not (isinstance(x, ast.Expr) and isinstance(x.value, ast.Constant))]
+        want = ["params={}", "params[GCMAlgorithmNames.MOTIF_SIZES]=self._motif_sizes", "params[GCMAlgorithmNames.BUILD_FUNCTIONS]=self._build_functions", "params[GCMAlgorithmNames.EDGE_NAMES]=self._edge_names",
+                "CEdgeList=GCMAlgorithmFast(params).random_clustered_graph(jds)", "returnEdgeListToNetwork.convert(CEdgeList)"]
+        return body == want, "the network generator = EdgeListToNetwork.convert(GCMAlgorithmFast(same sizes, callbacks, names).random_clustered_graph(jds))" if body == want else f"body is {body}"
+    def base_init(reg_):
+        d = reg_.find_def("gcmpy/gcm_algorithm/gcm_algorithm.py", "GCMAlgorithm.__init__"); src = ast.unparse(d).replace(" ", "")
+        ok = all(x in src for x in ("self._motif_sizes=params[GCMAlgorithmNames.MOTIF_SIZES]", "self._build_functions=params[GCMAlgorithmNames.BUILD_FUNCTIONS]", "self._edge_names=params[GCMAlgorithmNames.EDGE_NAMES]"))
+        return ok, "the base constructor stores the three parameters unchanged" if ok else "base constructor has another shape"
+    def dispatch(reg_):
+        d = reg_.find_def("gcmpy/gcm_algorithm/gcm_algorithm_factory.py", "GCMAlgorithmFactory.resolve_algorithm"); got = {}
+        def walk(node):
+            if isinstance(node, ast.If):
+                t = node.test
+                if isinstance(t, ast.Compare) and len(t.ops) == 1 and isinstance(t.ops[0], ast.Eq) and ast.unparse(t.left) == "type" and isinstance(t.comparators[0], ast.Attribute) and ast.unparse(t.comparators[0].value) == "GCMAlgorithmTypes" \
+                        and len(node.body) == 1 and isinstance(node.body[0], ast.Return) and isinstance(node.body[0].value, ast.Call) and [ast.unparse(a_) for a_ in node.body[0].value.args] == ["params"]:
+                    got[t.comparators[0].attr] = ast.unparse(node.body[0].value.func)
+                else: got["?"] = ast.unparse(t)[:40]
+                for o in node.orelse: walk(o)
+        for st_ in d.body: walk(st_)
+        want = {"FAST": "GCMAlgorithmFast", "NETWORK": "GCMAlgorithmNetwork", "MOTIFS": "GCMAlgorithmCustomMotifs"}
+        m2 = reg_.find_def("gcmpy/gcm_algorithm/gcm_algorithm_main.py", "GCMAlgorithmMain.load_gcm_algorithm"); src = ast.unparse(m2).replace(" ", "")
+        ok2 = "GCMAlgorithmTypes(params[GCMAlgorithmNames.GCM_TYPE])" in src and "GCMAlgorithmFactory.resolve_algorithm(input_type,params)" in src and "returnloader" in src
+        return (got == want and ok2), f"dispatch table {got}; entry point resolves the enum from params and returns the factory's object: {ok2}"
+    reg.static_checks += [("GCMAlgorithmNetwork.random_clustered_graph:static.delegates_to_fast_then_converts", network_delegates),
+                          ("GCMAlgorithm.__init__:static.stores_parameters", base_init), ("GCMAlgorithmFactory.resolve_algorithm:static.dispatch_table_and_main_entry", dispatch)]
     return ["LightWeightEdgeList.__init__", "GCMAlgorithmFast.random_clustered_graph"]
